@@ -6,7 +6,7 @@
    lengths; [trun_state v (tinit maxPer maxTotal) ops] is the state and the callback log after
    the history [ops] of Assemble / FlushWithOptions / FlushAll calls on any connections.
    Variant [fixedv] = the repository with the four C11 repairs, [origv] = the unchanged tree. *)
-From GP Require Import Base C11Common C11TModel C11RModel C11LogProofs C11TProofs C11RProofs C11ROnce.
+From GP Require Import Base C11Common C11TModel C11RModel C11LogProofs C11TProofs C11RProofs C11ROnce C11RAge C11RLimit.
 Open Scope Z_scope.
 
 (* ================================================================== tcpassembly *)
@@ -149,6 +149,49 @@ Theorem C11_r_once : forall v cfg ops, v_saved v = true -> v_hpages v = true ->
 Proof. exact r_once. Qed.
 Print Assumptions C11_r_once.
 
+(* C11_once without any hypothesis: for EVERY variant, configuration and history -- including
+   histories on which a checked slice operation of the model fails (the model then reports a panic
+   for that call and stops, as the harness does) -- the whole callback log is accepted by the
+   lifecycle automaton: New first, data only while open, exactly one Complete per completed stream,
+   nothing after it.  The characterisation of the open streams needs the state and is given for as
+   long as no call has panicked (rs_dead = false is exactly "no call so far panicked in the model":
+   the sites are the re-slices of checkOverlap cases 2/4/6, overlapExisting and cleanSG; none is
+   reached by any generated case). *)
+Theorem C11_r_once_total : forall v cfg ops,
+  exists ls, lrun l0 (snd (rrun_state v (rinit cfg) ops)) = Some ls /\
+             (rs_dead (fst (rrun_state v (rinit cfg) ops)) = false ->
+              l_open ls = osids (rs_conns (fst (rrun_state v (rinit cfg) ops)))).
+Proof. exact r_once_total. Qed.
+Print Assumptions C11_r_once_total.
+
+(* C11_age (repaired model): FlushWithOptions{T: t, TC: tc} (FlushCloseOlderThan t is t = tc) from
+   any state satisfying the invariant.  Every batch handed to a stream starts with a page seen
+   before t (the time stamp the stream is given is that page's, or none when the page is not the
+   first of its packet); and, if the call does not panic in the model, every half-connection left
+   open in the pool does not wait in front of data older than t and, when it has nothing queued,
+   belongs to a connection heard from since tc. *)
+Theorem C11_r_age : forall v cfg st t tc, v_saved v = true -> v_hpages v = true ->
+  rinv cfg st -> rs_dead st = false ->
+  Forall (ev_older_r t) (ro_ev (snd (rstep v st (RFlush t tc)))) /\
+  (ro_panic (snd (rstep v st (RFlush t tc))) = false ->
+   Forall (aged_r t tc) (rs_conns (fst (rstep v st (RFlush t tc))))).
+Proof. intros v cfg st t tc Hs Hh. exact (r_age_step v cfg Hs Hh st t tc). Qed.
+(* ... and a half-connection the cut-offs do not concern is not touched *)
+Theorem C11_r_age_untouched : forall v cfg w t tc c x, h_closed (get_half c w) = false ->
+  qhead_older (get_half c w) t = false -> (h_queue (get_half c w) = [] -> tc <= conn_last_seen c) ->
+  x_panic x = false -> flush_close v cfg c w x t tc = (c, false, x, false, false).
+Proof. exact flush_close_untouched. Qed.
+Print Assumptions C11_r_age.
+Print Assumptions C11_r_age_untouched.
+Example C11_r_age_nonvacuous :
+  let cfg := mkCfg 0 0 [] [] in
+  let ops := [RSeg 0 false 1000 true false false 0 100; RSeg 0 false 1101 false false false 10 101;
+              RSeg 0 false 1301 false false false 10 110; RSeg 1 false 7000 true false false 0 90] in
+  let st := fst (rrun_state fixedv (rinit cfg) ops) in
+  map ro_ev [snd (rstep fixedv st (RFlush 105 95))] = [[EData 1 1 10 100 false false 101 0; EDone 2 true]] /\
+  map rc_sid (rs_conns (fst (rstep fixedv st (RFlush 105 95)))) = [1].
+Proof. vm_compute. split; reflexivity. Qed.
+
 (* non-vacuity: two connections, KeepFrom on every call, one stream declines removal, a FIN in one
    direction, FlushAll: nothing in use, the declining stream's connection stays, both completed *)
 Definition r_example_cfg : rcfg := mkCfg 0 0 [(1, 0)] [false; true].
@@ -196,6 +239,42 @@ Definition r_limit_witness : list rop :=
    RSeg 0 false 100000 false false false 5000 100; RSeg 0 false 110000 false false false 5000 100;
    RSeg 0 false 120000 false false false 5000 100; RSeg 0 false 130000 false false false 5000 100;
    RSeg 0 false 140000 false false false 5000 100].
+(* C11_limit, the bound that DOES hold of reassembly as it stands (repaired counters).
+   One call: when AssembleWithContext is given a segment of len bytes, every queue grows by at most
+   pages(len) - 1 beyond max(old bound, limit - 1): a limit flush gives back at least one page, and
+   without a limit flush the counters the code compared were below the limits. *)
+Theorem C11_r_limit_step : forall v cfg st k dir seq syn fin rst len ts B,
+  v_saved v = true -> v_hpages v = true -> rinv cfg st -> 0 <= B -> qbound B (rs_conns st) ->
+  let st' := fst (rassemble v st k dir seq syn fin rst len ts) in
+  (r_mpc cfg > 0 -> qbound (Z.max (r_mpc cfg - 1) (B + rpages len - 1)) (rs_conns st')) /\
+  (r_mt cfg > 0 -> qtot (rs_conns st') <= Z.max (r_mt cfg - 1) (qtot (rs_conns st) + rpages len - 1)).
+Proof. intros v cfg st k dir seq syn fin rst len ts B Hs Hh. exact (r_limit_assemble v cfg Hs Hh st k dir seq syn fin rst len ts B). Qed.
+(* Every history: with a per-connection limit L > 0 every half-connection queues at most
+   L - 1 + excess pages, with a total limit T > 0 at most T - 1 + excess pages are queued in all,
+   where excess = sum over the AssembleWithContext calls so far of (pages of the segment - 1). *)
+Theorem C11_r_limit : forall v cfg ops, v_saved v = true -> v_hpages v = true ->
+  let st := fst (rrun_state v (rinit cfg) ops) in
+  (r_mpc cfg > 0 -> forall c w, In c (rs_conns st) -> ql c w <= r_mpc cfg - 1 + excess ops) /\
+  (r_mt cfg > 0 -> qtot (rs_conns st) <= r_mt cfg - 1 + excess ops).
+Proof. exact r_limit. Qed.
+(* in particular the property's own bound (and more) holds when no segment exceeds one page *)
+Theorem C11_r_limit_single_page : forall v cfg ops, v_saved v = true -> v_hpages v = true ->
+  (forall k d s a b f l t, In (RSeg k d s a b f l t) ops -> l <= PAGE) ->
+  let st := fst (rrun_state v (rinit cfg) ops) in
+  (r_mpc cfg > 0 -> forall c w, In c (rs_conns st) -> ql c w < r_mpc cfg) /\
+  (r_mt cfg > 0 -> qtot (rs_conns st) < r_mt cfg).
+Proof.
+  intros v cfg ops Hs Hh Hl. cbn zeta. destruct (r_limit v cfg ops Hs Hh) as [A B]. rewrite (excess_single ops Hl) in A, B.
+  split; [intros Hm c w Hin; specialize (A Hm c w Hin); lia|intros Hm; specialize (B Hm); lia].
+Qed.
+Print Assumptions C11_r_limit_step.
+Print Assumptions C11_r_limit.
+Print Assumptions C11_r_limit_single_page.
+(* the bound of C11_r_limit is attained: the witness of the refutation below reaches 12 = 5 - 1 + 8 + ... *)
+Example C11_r_limit_nonvacuous :
+  excess [RSeg 0 false 1 false false false 5000 1; RSeg 0 false 1 false false false 1900 1; RSeg 0 false 1 false false false 1901 1] = 3.
+Proof. vm_compute. reflexivity. Qed.
+
 Definition C11_r_limit_statement : Prop :=
   forall cfg ops c, In c (rs_conns (fst (rrun_state fixedv (rinit cfg) ops))) -> r_mpc cfg > 0 ->
     forall maxlen, (forall k d s a b f l t, In (RSeg k d s a b f l t) ops -> l <= maxlen) ->
